@@ -364,6 +364,10 @@ def cause_code(F, R):
     b = F.one(r'^error::ProtocolViolationError::reason$')
     rets = [term_str_v(p.ret) for p in SymEx(b, F).run() if p.end[0] == 'return']
     R.ob('C15.cause-code', 'ProtocolViolationError::reason|Spec=>SpecViolation::reason', any('error::SpecViolation::reason' in r for r in rets), str(rets)[:200])
+    # a violation built with a dedicated code (`ProtocolError::violation(TopicAliasInvalid, ..)`) keeps it: the Common arm returns
+    # the stored `reason` field
+    R.ob('C15.cause-code', 'ProtocolViolationError::reason|Common=>stored-reason', any(re.search(r'as Common\)\.reason|Common.*\.reason', r) for r in rets),
+         'the reason code stored in a generic violation is not what reason() returns (%s): a violation raised with a dedicated code is reported with another one' % str(rets)[:160])
     # constant reasons handed to ProtocolError::violation (stored as Common.reason)
     n = 0
     for body in F.bodies.values():
@@ -383,6 +387,24 @@ def cause_code(F, R):
     pa = F.one(r'^v5::shared::MqttShared::pkt_ack$')
     reasons = [s['rv']['variant'] for x in F.family(pa) for bi, j, s in agg_sites(x, r'^%s$' % re.escape(DRC))]
     R.ob('C15.cause-code', 'v5::shared::MqttShared::pkt_ack|reason', reasons and not (set(reasons) & FORBIDDEN), 'constant reasons used: %s' % reasons)
+
+
+def no_suspension_before_service_shutdown(F, R):
+    """The endpoint's own DISCONNECT is written in the Stop state of the io dispatcher; the io is closed by the shutdown of the
+    protocol services, started in the Shutdown state. Nothing lets the task suspend in between: in the Shutdown arm of
+    Dispatcher::poll every way out (return) lies behind the call of `service.poll_shutdown` - a wait inserted before it (for
+    a flush, say) leaves a window in which completed handlers and the application still write behind the DISCONNECT."""
+    import c07
+    poll = F.one(r'^<io::Dispatcher<P, C, U, E> as std::future::Future>::poll$')
+    arms = variant_edges(F, poll, c07.ST)
+    reg = arm_region(poll, arms.get('Shutdown', []))
+    sh = [bi for bi, t in poll.calls_to(r'::poll_shutdown$') if bi in reg and 'service' in (call_recv_path(poll, t, 0) or ())]
+    entries = [tb for sb, tb in arms.get('Shutdown', [])]
+    early = [rb for rb in poll.returns() if rb in poll.reachable(entries, avoid=sh) and rb in reg] if entries else []
+    # (returns shared with other arms are attributed by reachability from this arm's entry without passing poll_shutdown)
+    early2 = [rb for rb in poll.returns() if entries and rb in poll.reachable(entries, avoid=set(sh) | {c07.loop_head(F, poll)})]
+    R.ob('C15.nothing-after', 'io::Dispatcher::poll|Shutdown|no-way-out-before-service.poll_shutdown', bool(sh) and not early2,
+         'the Shutdown state can return (suspend) before the protocol services are shut down - after the endpoint\'s own DISCONNECT was written in the Stop state and before the io is closed: whatever completes meanwhile is written after the DISCONNECT', poll.loc(early2[0]) if early2 else poll.loc(0))
 
 
 def violation_guards(F, R):
@@ -452,3 +474,4 @@ def run(F, R):
     nothing_after(F, R)
     cause_code(F, R)
     violation_guards(F, R)
+    no_suspension_before_service_shutdown(F, R)
